@@ -76,6 +76,12 @@ Definition g_reset_derived (s : gst) : gst :=
   {| g_verts := g_verts s; g_nmeshes := g_nmeshes s; g_ndomains := g_ndomains s; g_nested := g_nested s; g_nparams := g_nparams s;
      g_cbt := g_cbt s; g_pairs := 0; g_parts := 0; g_invalid := []; g_loaded := g_loaded s |}.
 
+Fixpoint eqbZs (a b : list Z) : bool :=
+  match a, b with [], [] => true | x :: a', y :: b' => (x =? y) && eqbZs a' b' | _, _ => false end.
+(* two descriptors of the same geometry file (same vertices, meshes, domains), possibly different conductivities *)
+Definition same_geometry (a b : gdesc) : bool :=
+  (eqbZs (d_verts a) (d_verts b) && Nat.eqb (d_nmeshes a) (d_nmeshes b) && Nat.eqb (d_ndomains a) (d_ndomains b))%bool.
+
 (* Geometry::load(geom[,cond]) with descriptor number i *)
 Definition g_load (fixed : bool) (i : nat) (d : gdesc) (s : gst) : gst :=
   let s1 := g_clear fixed s in
@@ -94,7 +100,11 @@ Inductive gop :=
 | GLoad (i : nat)        (* load / import described by descriptor i (an import is a descriptor with d_finalized = false) *)
 | GHeadMat               (* HeadMat(geo) : fingerprint of the result *)
 | GOther                 (* another assembly on the same geometry (DipSourceMat): result not observed *)
-| GFinalize.             (* finalize() called again on an object whose last load reached finalize *)
+| GFinalize              (* finalize() called again on an object whose last load reached finalize *)
+| GPollute               (* programmatic construction on the object as it is (add_vertices, add_mesh, add_triangle, finalize):
+                            appends by design; its own result is not observed, what matters is the load that follows *)
+| GSetCond (j : nat).    (* Domain::set_conductivity in place with the values of descriptor j (same geometry file as the loaded
+                            one, another conductivity file), then finalize() *)
 
 Definition dummy_desc : gdesc :=
   {| d_status := 3; d_verts := []; d_nmeshes := 0; d_ndomains := 0; d_finalized := false; d_marks := false; d_inv_add := [];
@@ -126,6 +136,20 @@ Definition g_step (fixed : bool) (W : list gdesc) (o : gop) (s : gst) : gst * li
                        call (a current barrier becomes isolated), which is below this bookkeeping level: the pinned
                        clause is exact only for geometries without current barriers *)
                     let s' := g_finalize d (if fixed then g_reset_derived s else s) in (s', g_observe 0 s')
+                  else (s, g_observe (-1) s)
+      | None => (s, g_observe (-1) s)
+      end
+  | GPollute =>
+      ({| g_verts := g_verts s; g_nmeshes := g_nmeshes s; g_ndomains := g_ndomains s; g_nested := g_nested s; g_nparams := g_nparams s;
+          g_cbt := g_cbt s; g_pairs := g_pairs s; g_parts := g_parts s; g_invalid := g_invalid s; g_loaded := None |}, [-3])
+  | GSetCond j =>
+      match g_loaded s with
+      | Some i => let di := nth i W dummy_desc in let dj := nth j W dummy_desc in
+                  if (d_finalized di && d_finalized dj && same_geometry di dj)%bool then
+                    let s0 := {| g_verts := g_verts s; g_nmeshes := g_nmeshes s; g_ndomains := g_ndomains s; g_nested := g_nested s;
+                                 g_nparams := g_nparams s; g_cbt := g_cbt s; g_pairs := g_pairs s; g_parts := g_parts s;
+                                 g_invalid := g_invalid s; g_loaded := Some j |} in
+                    let s' := g_finalize dj (if fixed then g_reset_derived s0 else s0) in (s', g_observe 0 s')
                   else (s, g_observe (-1) s)
       | None => (s, g_observe (-1) s)
       end
